@@ -85,14 +85,23 @@ D_Model == info.mm = 0              \* edges mode: the real state equals the mod
 (* Triage pass (st_nodeacct.py): one TLC run evaluates every predicate in every recorded state and
    prints the failing ones; the driver then confirms one scenario per distinct signature with the
    predicates as ordinary INVARIANTs. *)
-Checks == << <<"C14_NodeUsed", C14_NodeUsed>>, <<"C14_NodeIdle", C14_NodeIdle>>,
-             <<"C14_NodeReleasing", C14_NodeReleasing>>, <<"C14_NodeUsedMem", C14_NodeUsedMem>>,
-             <<"C14_NodeAllocMem", C14_NodeAllocMem>>, <<"C14_NodeRelMem", C14_NodeRelMem>>,
-             <<"C14_NodeMarker", C14_NodeMarker>>, <<"C14_NodePods", C14_NodePods>>,
-             <<"C14_NodeVector", C14_NodeVector>>,
-             <<"C02_GroupFits", C02_GroupFits>>, <<"C02_Exclusive", C02_Exclusive>>, <<"C02_Distinct", C02_Distinct>>,
-             <<"D_Units", D_Units>>, <<"D_NoError", D_NoError>>, <<"D_Drift", D_Drift>>, <<"D_Model", D_Model>> >>
-Failing == {Checks[i][1] : i \in {j \in 1..Len(Checks) : ~Checks[j][2]}}
+Failing ==
+  F("C14_NodeUsed", C14_NodeUsed)
+  \cup F("C14_NodeIdle", C14_NodeIdle)
+  \cup F("C14_NodeReleasing", C14_NodeReleasing)
+  \cup F("C14_NodeUsedMem", C14_NodeUsedMem)
+  \cup F("C14_NodeAllocMem", C14_NodeAllocMem)
+  \cup F("C14_NodeRelMem", C14_NodeRelMem)
+  \cup F("C14_NodeMarker", C14_NodeMarker)
+  \cup F("C14_NodePods", C14_NodePods)
+  \cup F("C14_NodeVector", C14_NodeVector)
+  \cup F("C02_GroupFits", C02_GroupFits)
+  \cup F("C02_Exclusive", C02_Exclusive)
+  \cup F("C02_Distinct", C02_Distinct)
+  \cup F("D_Units", D_Units)
+  \cup F("D_NoError", D_NoError)
+  \cup F("D_Drift", D_Drift)
+  \cup F("D_Model", D_Model)
 GSortT(S) == LET RECURSIVE F(_) F(i) == IF i > Len(G) THEN <<>> ELSE (IF G[i] \in S THEN <<G[i]>> ELSE <<>>) \o F(i + 1) IN F(1)
 Triage ==
   IF Failing = {} THEN TRUE
